@@ -422,9 +422,83 @@ Fixpoint ovl_eqb (a b : list (option value)) : bool :=
         return len(case['methods']) >= 2 and len({c['m'] for c in case['calls']}) >= 2
 
 
+PROCESS_SCRIPT = r"""
+import json, sys
+from taskchain.cache import cached, JsonCache
+
+class Obj:
+    def __init__(self, d):
+        self.cache = JsonCache(d)
+        self.ran = []
+
+    @cached(version='1')
+    def load(self, name, limit=10):
+        self.ran.append([name, limit])
+        return {'name': name, 'limit': limit}
+
+o = Obj(sys.argv[1])
+mode = sys.argv[2]
+out = []
+if mode == 'store':
+    o.load('c', store_cache_value={'supplied': True})
+for args, kwargs in (([('a')], {}), (['b'], {'limit': 5}), ([], {'name': 'a', 'limit': 10}), (['c'], {})):
+    try:
+        out.append(o.load(*args, **kwargs, **({'only_cache': True} if mode == 'lookup' else {})))
+    except Exception as e:
+        out.append('raised ' + type(e).__name__)
+print('RESULT ' + json.dumps(dict(out=out, ran=o.ran)))
+"""
+
+
+class AcrossProcesses(Suite):
+    """a cached method whose object keeps a file cache, used by several interpreter processes one after the other (each
+    with its own string-hash seed): what one process computed or was given through store_cache_value is an entry for the
+    next - it executes nothing for those bindings, and only_cache finds them.  Runtime check only."""
+    name = 'file_cache_across_processes'
+    model = ''
+
+    def gen(self, rng, tier):
+        return [dict(seeds=s) for s in (['1', '2', '3'], ['random', 'random', 'random'], ['0', '0', '7'])]
+
+    def run_impl(self, case):
+        import json, os, shutil, subprocess, sys, tempfile
+        d = tempfile.mkdtemp(prefix='tcverif-c16p-')
+        try:
+            outs = []
+            for seed, mode in zip(case['seeds'], ('store', 'call', 'lookup')):
+                env = dict(os.environ, PYTHONHASHSEED=seed)
+                p = subprocess.run([sys.executable, '-c', PROCESS_SCRIPT, d, mode], env=env, capture_output=True, text=True, timeout=120)
+                line = next((l for l in p.stdout.splitlines() if l.startswith('RESULT ')), None)
+                outs.append(json.loads(line[7:]) if line else dict(error=(p.stderr or '?')[-300:]))
+            return dict(outs=outs)
+        finally:
+            shutil.rmtree(d, ignore_errors=True)
+
+    def oracle(self, case, obs):
+        if 'unexpected_exception' in obs:
+            return f'unexpected exception {obs["unexpected_exception"]}: {obs["text"]}'
+        if any('error' in o for o in obs['outs']):
+            return f'{case}: a process failed: {obs["outs"]}'
+        values = [{'name': 'a', 'limit': 10}, {'name': 'b', 'limit': 5}, {'name': 'a', 'limit': 10}, {'supplied': True}]
+        first, second, third = obs['outs']
+        if first['out'] != values or first['ran'] != [['a', 10], ['b', 5]]:
+            return f'{case}: the first process yields {first}; expected {values}, executing a/10 and b/5'
+        if second['out'] != values or second['ran']:
+            return f'{case}: the second process yields {second["out"]} and executes {second["ran"]}; every binding is an entry of the first process'
+        if third['out'] != values or third['ran']:
+            return f'{case}: only_cache in a third process yields {third["out"]} (executed {third["ran"]}); expected {values}'
+        return None
+
+    def nontrivial(self, case, obs):
+        return True
+
+    def key(self, case):
+        return repr(case)
+
+
 class C16(Prop):
     pid = 'C16'
-    suites = [History(), Methods()]
+    suites = [History(), Methods(), AcrossProcesses()]
     trusted_base = ['json.dumps(sort_keys=True) of the standard library is injective on JSON-distinguishable values '
                     'and insensitive to dict insertion order (the model key is the value the key text denotes)']
     assumptions = ['calls are valid Python calls of the undecorated method; argument values are JSON-like with '
